@@ -16,6 +16,10 @@ pub enum T {
 
 pub const SUB_LINE: u64 = 900;
 pub const RECURSE_LINE: u64 = 950;
+/// A subroutine that asks for input.
+pub const INSUB_LINE: u64 = 800;
+/// A recursion spread over two lines (the failing GOSUB is not on the line it targets).
+pub const DEEP_LINE: u64 = 960;
 
 fn p(items: Vec<PItem>) -> Stmt {
     Stmt::Print(items)
@@ -162,17 +166,7 @@ pub fn core_menu() -> Vec<(&'static str, T)> {
 
 /// The 8-template loop/subroutine core.
 pub fn loop_menu() -> Vec<(&'static str, T)> {
-    let names = [
-        "PRINT X",
-        "X=X+1",
-        "GOSUB sub",
-        "FOR I=1 TO 2",
-        "NEXT I",
-        "IF X=0 THEN GOSUB sub ELSE PRINT \"NO\"",
-        "RETURN",
-        "IF X THEN last",
-    ];
-    full_menu().into_iter().filter(|(n, _)| names.contains(n)).collect()
+    pick(&["PRINT X", "X=X+1", "GOSUB sub", "FOR I=1 TO 2", "NEXT I", "IF X=0 THEN GOSUB sub ELSE PRINT \"NO\"", "RETURN", "IF X THEN last", "GOSUB deep"])
 }
 
 /// Templates that only the feature-cluster menus use.
@@ -197,7 +191,30 @@ fn extra_templates() -> Vec<(&'static str, T)> {
         ("DEF INT(N)=N+100", T::S(Stmt::Def("INT".into(), vec!["N".into()], bin(Add, var("N"), num(100.0))))),
         ("IF X THEN GOSUB sub", T::S(Stmt::If(var("X"), br(Stmt::Gosub(SUB_LINE)), None))),
         ("IF I=1 THEN FOR J=1 TO 2", T::S(Stmt::If(bin(Eq, var("I"), num(1.0)), br(Stmt::For("J".into(), num(1.0), num(2.0), None)), None))),
+        ("READ A(I)", T::S(Stmt::Read(vec![lvi("A", vec![var("I")])]))),
+        ("READ B$(2)", T::S(Stmt::Read(vec![lvi("B$", vec![num(2.0)])]))),
+        // ---- INPUT family ----
+        ("INPUT X", T::S(Stmt::Input(lv("X")))),
+        ("INPUT Y$", T::S(Stmt::Input(lv("Y$")))),
+        ("INPUT A(X)", T::S(Stmt::Input(lvi("A", vec![var("X")])))),
+        ("IF X THEN INPUT X ELSE PRINT \"NO\"", T::S(Stmt::If(var("X"), br(Stmt::Input(lv("X"))), Some(br(pe(st("NO"))))))),
+        ("IF X=0 THEN PRINT \"Z\" ELSE INPUT Y$", T::S(Stmt::If(bin(Eq, var("X"), num(0.0)), br(pe(st("Z"))), Some(br(Stmt::Input(lv("Y$"))))))),
+        ("PRINT X;Y$;", T::S(p(vec![PItem::E(var("X")), PItem::Semi, PItem::E(var("Y$")), PItem::Semi]))),
+        ("PRINT A(1);A(5)", T::S(p(vec![PItem::E(call("A", vec![num(1.0)])), PItem::Semi, PItem::E(call("A", vec![num(5.0)]))]))),
+        ("GOSUB insub", T::S(Stmt::Gosub(INSUB_LINE))),
+        ("GOSUB deep", T::S(Stmt::Gosub(DEEP_LINE))),
+        ("IF X=0 THEN PRINT 1/0", T::S(Stmt::If(bin(Eq, var("X"), num(0.0)), br(pe(bin(Div, num(1.0), num(0.0)))), None))),
+        (
+            "INPUT A(INT(RND(1)*3))",
+            T::S(Stmt::Input(lvi("A", vec![Expr::Int(Box::new(bin(Mul, Expr::Rnd(Box::new(num(1.0))), num(3.0))))]))),
+        ),
+        ("PRINT A(0);A(1);A(2);RND(1)", T::S(p(vec![PItem::E(call("A", vec![num(0.0)])), PItem::Semi, PItem::E(call("A", vec![num(1.0)])), PItem::Semi, PItem::E(call("A", vec![num(2.0)])), PItem::Semi, PItem::E(Expr::Rnd(Box::new(num(1.0))))]))),
     ]
+}
+
+/// INPUT into both kinds and into an array cell, under IF / ELSE, in loops and subroutines.
+pub fn input_menu() -> Vec<(&'static str, T)> {
+    pick(&["INPUT X", "INPUT Y$", "INPUT A(X)", "IF X THEN INPUT X ELSE PRINT \"NO\"", "IF X=0 THEN PRINT \"Z\" ELSE INPUT Y$", "PRINT X;Y$;", "PRINT A(1);A(5)", "GOSUB insub", "X=X+1", "FOR I=1 TO 2", "NEXT I", "GOTO first", "IF X THEN last", "END", "INPUT A(INT(RND(1)*3))", "PRINT A(0);A(1);A(2);RND(1)"])
 }
 
 fn pick(names: &[&'static str]) -> Vec<(&'static str, T)> {
@@ -226,12 +243,12 @@ pub fn fn_menu() -> Vec<(&'static str, T)> {
 
 /// Arrays: explicit and implicit dimensioning, strides, subscript errors.
 pub fn array_menu() -> Vec<(&'static str, T)> {
-    pick(&["DIM A(2)", "DIM M(1,2,1)", "A(I)=I", "M(1,J,0)=7", "PRINT A(11)", "PRINT M(1,2,1);M(0,0,0)", "FOR I=1 TO 2", "NEXT I", "PRINT A(I);A(0)", "A(3)=1", "B$(1)=\"q\"", "PRINT B$(1);B$(2)", "FOR J=2 TO 1 STEP -1", "NEXT J", "A(1)=\"s\" (ill-typed)"])
+    pick(&["DIM A(2)", "DIM M(1,2,1)", "A(I)=I", "M(1,J,0)=7", "PRINT A(11)", "PRINT M(1,2,1);M(0,0,0)", "FOR I=1 TO 2", "NEXT I", "PRINT A(I);A(0)", "A(3)=1", "B$(1)=\"q\"", "PRINT B$(1);B$(2)", "FOR J=2 TO 1 STEP -1", "NEXT J", "A(1)=\"s\" (ill-typed)", "READ A(I)", "READ B$(2)", "DATA 2"])
 }
 
 /// IF / ELSE lines combined with subroutines and loops.
 pub fn branch_menu() -> Vec<(&'static str, T)> {
-    pick(&["IF X THEN PRINT 1", "IF X THEN PRINT 1 ELSE PRINT 2", "IF X=0 THEN GOSUB sub ELSE PRINT \"NO\"", "IF X THEN X=5", "IF X THEN last", "IF X THEN GOSUB sub", "X=X+1", "PRINT X", "GOTO first", "RETURN", "FOR I=1 TO 2", "NEXT I", "IF X THEN GOSUB sub ELSE PRINT \"NO\""])
+    pick(&["IF X THEN PRINT 1", "IF X THEN PRINT 1 ELSE PRINT 2", "IF X=0 THEN GOSUB sub ELSE PRINT \"NO\"", "IF X THEN X=5", "IF X THEN last", "IF X THEN GOSUB sub", "X=X+1", "PRINT X", "GOTO first", "RETURN", "FOR I=1 TO 2", "NEXT I", "IF X THEN GOSUB sub ELSE PRINT \"NO\"", "IF X=0 THEN PRINT 1/0"])
 }
 
 /// Lays a statement sequence out on lines. `joins` bit i set = statement i+1 shares the line
@@ -249,6 +266,8 @@ pub fn layout(seq: &[T], joins: u32) -> ProgramAst {
     }
     let mut prog = ProgramAst::new();
     let mut uses_sub = false;
+    let mut uses_insub = false;
+    let mut uses_deep = false;
     for (i, t) in seq.iter().enumerate() {
         let stmt = match t {
             T::S(s) => s.clone(),
@@ -259,7 +278,25 @@ pub fn layout(seq: &[T], joins: u32) -> ProgramAst {
         if refs_line(&stmt, SUB_LINE) || refs_line(&stmt, RECURSE_LINE) {
             uses_sub = true;
         }
+        if refs_line(&stmt, INSUB_LINE) {
+            uses_insub = true;
+        }
+        if refs_line(&stmt, DEEP_LINE) {
+            uses_deep = true;
+        }
         prog.entry(line_of[i]).or_default().push(stmt);
+    }
+    if uses_insub {
+        prog.insert(790, vec![Stmt::End]);
+        prog.insert(
+            INSUB_LINE,
+            vec![
+                Stmt::Print(vec![PItem::E(st("T")), PItem::Semi]),
+                Stmt::Input(lv("X")),
+                Stmt::Print(vec![PItem::E(st("U")), PItem::Semi]),
+                Stmt::Return,
+            ],
+        );
     }
     if uses_sub {
         prog.insert(890, vec![Stmt::End]);
@@ -272,6 +309,11 @@ pub fn layout(seq: &[T], joins: u32) -> ProgramAst {
             ],
         );
         prog.insert(RECURSE_LINE, vec![Stmt::Gosub(RECURSE_LINE)]);
+    }
+    if uses_deep {
+        prog.insert(955, vec![Stmt::End]);
+        prog.insert(DEEP_LINE, vec![Stmt::Let(false, lv("X"), bin(Bin::Add, var("X"), num(1.0)))]);
+        prog.insert(DEEP_LINE + 10, vec![Stmt::Gosub(DEEP_LINE)]);
     }
     prog
 }
